@@ -262,6 +262,13 @@ def lift2(op, a, b):
     """binary op over scalars / PV / Arr / Opaque with numpy broadcasting."""
     if is_opaque(a): return a
     if is_opaque(b): return b
+    if type(a).__name__ == "Masked" or type(b).__name__ == "Masked":
+        ma = type(a).__name__ == "Masked"; mb = type(b).__name__ == "Masked"
+        if ma and mb:
+            if a.mask is not b.mask: return Opaque("arithmetic on arrays compacted with different masks")
+            return type(a)(lift2(op, a.arr, b.arr), a.mask)
+        if ma: return type(a)(lift2(op, a.arr, b), a.mask)
+        return type(b)(lift2(op, a, b.arr), b.mask)
     if isinstance(a, (Arr, ArrParam, LocalArr)) or isinstance(b, (Arr, ArrParam, LocalArr)):
         return arr_op2(op, a, b)
     def leaf(x, y):
@@ -386,8 +393,11 @@ def subst_val(v, mapping):
         return Arr([(a, c.subst(mapping) if isinstance(c, X) else c) for a, c in v.axes], subst_val(v.body, mapping))
     if isinstance(v, tuple): return tuple(subst_val(e, mapping) for e in v)
     if isinstance(v, list): return [subst_val(e, mapping) for e in v]
-    if isinstance(v, ListVal) and not v.per_iter:
-        return ListVal([subst_val(e, mapping) for e in v.items])
+    if isinstance(v, ListVal):
+        r = ListVal([subst_val(e, mapping) for e in v.items])
+        r.per_iter = [((p[0], subst_val(p[1], {k: x for k, x in mapping.items() if k != p[0]}), subst_val(p[2], {k: x for k, x in mapping.items() if k != p[0]})) + tuple(p[3:]))
+                      if isinstance(p, tuple) and len(p) >= 3 else p for p in v.per_iter]
+        return r
     if isinstance(v, ArrParam) and v.bin is not None and isinstance(v.bin, X):
         n = ArrParam(v.name, v.ndim, v.kind, v.known); n.bin = v.bin.subst(mapping); n.built = v.built
         return n
